@@ -63,12 +63,12 @@ PROPS["C07"] = dict(
          "channel capacity 0/1/8, all drawn from the seed. Oracles: porcupine linearizability of the recorded history (events stamped with the scheduler's "
          "global event sequence; AddTriples batch atomic, RemoveTriples expanded to single-triple removals sharing the call interval), no panic, no deadlock "
          "(no runnable task while a client is unfinished), step cap, channel closed exactly once also on error, shared options unmodified between every two "
-         "scheduler steps, no goroutine left; 8% of the lookups are called with a context that is already done (refusing is fine, not closing the channel is not); after all clients returned a quiescent "
+         "scheduler steps, no goroutine left, lock discipline (no access to a mutex-guarded field of the store without its lock while another task accesses it too, one of them writing); 8% of the lookups are called with a context that is already done (refusing is fine, not closing the channel is not); after all clients returned a quiescent "
          "audit compares every lookup for every universe triple and Exist with the full listing of each graph, and the final listing joins the history. Non-trivial: at least one scheduling decision with >= 2 runnable tasks, >= 2 clients on one graph, >= 1 write; "
          "distinct = distinct (recorded history, pick sequence) pairs",
     components_real=["storage/memory (real code, instrumented scratch copy: sim.Yield before every statement, sim.RWMutex)", "triple, node, predicate, literal (real code)"],
     components_stub=["clients and channel drainers (harness tasks)", "scheduler: seeded cooperative baton scheduler inside a testing/synctest bubble (x/sim)"],
-    assumptions=["switch points are statement boundaries: a torn single statement (racy append / map write inside one statement) is below the simulator's granularity; the race clause of C07 is covered only as far as unsynchronised multi-statement updates become visible to the linearizability / invariant oracles",
+    assumptions=["switch points are statement boundaries: what two racing statements do to memory is below the simulator's granularity; the race clause of C07 is covered by (a) unsynchronised multi-statement updates becoming visible to the linearizability / invariant / audit oracles and (b) the lock-discipline check: every access to a mutex-guarded field of storage/memory (map fields and fields declared after the mutex) is checked against the locks the accessing task holds; accesses through a local alias of a bucket are not seen",
                  "sim.RWMutex admits any hand-over order (a superset of sync.RWMutex); Go's writer preference is modelled as a per-run flag",
                  "porcupine timeouts (10 s) are counted as inconclusive, never reported"],
 )
